@@ -601,3 +601,81 @@ Proof.
       rewrite (Hi (snd x) (snd y)); [exact Hx|apply (HL' x (or_introl eq_refl))|apply (HL' y (or_intror (or_introl eq_refl)))]. }
     rewrite Hs. f_equal. rewrite <- (map_id G) at 2. apply map_ext_in. intros g Hg'. destruct (HG g Hg') as (_ & _ & B). rewrite B. destruct g; reflexivity.
 Qed.
+
+(* ---------------------------------------------------------------- Deb822::wrap_and_sort on a token document *)
+(* the children of the root of a document read without errors: paragraphs (as above) and
+   EMPTY_LINE nodes made of tokens (a blank line; a comment line) *)
+Definition is_token (c : tree) : bool := match c with Tok _ _ => true | Node _ _ => false end.
+Definition rchild_ok (ind : indentation) (c : tree) : bool :=
+  match c with
+  | Node PARAGRAPH ps => forallb (pchild_ok ind) ps
+  | Node EMPTY_LINE ts => forallb is_token ts
+  | _ => false
+  end.
+Definition is_para_node (c : tree) : bool := match c with Node PARAGRAPH _ => true | _ => false end.
+Definition comment_line (c : tree) : bool := existsb (fun x => negb (is_blank_kind x)) (children c).
+
+(* every paragraph with the comment lines in front of it (blank lines dropped); those after the last *)
+Fixpoint d_groups (rs : list tree) (cur : list tree) : list (list tree * tree) * list tree :=
+  match rs with
+  | [] => ([], cur)
+  | c :: r => if is_para_node c then let '(gs, tr) := d_groups r [] in ((cur, c) :: gs, tr)
+              else d_groups r (if comment_line c then cur ++ [c] else cur)
+  end.
+Fixpoint d_emit (first : bool) (gs : list (list tree * tree)) : list tree :=
+  match gs with
+  | [] => []
+  | g :: r => (if first then [] else [blank_line]) ++ fst g ++ snd g :: d_emit false r
+  end.
+Definition pp_out (ind : indentation) (iel : bool) (mll : option N) (esort : option (tree -> tree -> comparison)) (p : tree) : tree :=
+  ensure_nl (Node PARAGRAPH (p_out ind iel mll esort (children p))).
+(* what Deb822::wrap_and_sort returns: groups sorted stably as units, every paragraph reformatted
+   and terminated, one blank line between them, the result terminated *)
+Definition d_out (ind : indentation) (iel : bool) (mll : option N) (psort esort : option (tree -> tree -> comparison)) (rs : list tree) : tree :=
+  ensure_nl (Node ROOT (d_emit true (map (fun g => (fst g, pp_out ind iel mll esort (snd g)))
+                                         (sort_opt (option_map on_snd psort) (fst (d_groups rs []))))
+                        ++ snd (d_groups rs []))).
+
+Lemma dws_scan_tok ind rs : forall cur acc, forallb (rchild_ok ind) rs = true ->
+  dws_scan fixed rs cur acc = Ok (acc ++ fst (d_groups rs cur), snd (d_groups rs cur)).
+Proof.
+  induction rs as [|c r IH]; intros cur acc H.
+  - cbn [dws_scan d_groups fst snd]. rewrite app_nil_r. reflexivity.
+  - cbn [forallb] in H. apply andb_true_iff in H. destruct H as [Hc Hr]. destruct c as [k s|k cs]; [discriminate|].
+    destruct k; try discriminate; cbn [d_groups is_para_node dws_scan ekind is_node v_doc_lines fixed].
+    + rewrite (IH [] _ Hr). destruct (d_groups r []) as [gs tr]. cbn [fst snd]. rewrite <- app_assoc. reflexivity.
+    + unfold comment_line. destruct (existsb (fun x => negb (is_blank_kind x)) (children (Node EMPTY_LINE cs))); apply IH, Hr.
+Qed.
+
+Lemma d_groups_In ind rs : forall cur g, forallb (rchild_ok ind) rs = true -> In g (fst (d_groups rs cur)) ->
+  exists ps, snd g = Node PARAGRAPH ps /\ forallb (pchild_ok ind) ps = true.
+Proof.
+  induction rs as [|c r IH]; intros cur g H Hg; [contradiction|]. cbn [forallb] in H. apply andb_true_iff in H. destruct H as [Hc Hr].
+  cbn [d_groups] in Hg. destruct (is_para_node c) eqn:Ep.
+  - destruct (d_groups r []) as [gs tr] eqn:E. cbn [fst] in Hg. destruct Hg as [<-|Hg].
+    + cbn [snd]. destruct c as [|k cs]; [discriminate|]. destruct k; try discriminate. exists cs. split; [reflexivity|exact Hc].
+    + apply (IH [] g Hr). rewrite E. exact Hg.
+  - apply (IH _ g Hr Hg).
+Qed.
+
+Lemma dws_emit_tok ind iel mll esort gs : forall first,
+  (forall g, In g gs -> exists ps, snd g = Node PARAGRAPH ps /\ forallb (pchild_ok ind) ps = true) ->
+  dws_emit fixed (Some (para_ws fixed ind iel mll esort None)) first gs =
+  Ok (d_emit first (map (fun g => (fst g, pp_out ind iel mll esort (snd g))) gs)).
+Proof.
+  induction gs as [|[pre p] r IH]; intros first H; [reflexivity|]. cbn [dws_emit map d_emit fst snd].
+  rewrite (res_map_id (emit_current fixed)) by (intros x _; reflexivity). cbn [bind].
+  destruct (H (pre, p) (or_introl eq_refl)) as (ps & E & Hps). cbn [snd] in E. subst p.
+  rewrite (para_ws_tokens ind iel mll esort ps Hps). cbn [bind v_terminate fixed].
+  rewrite (IH false (fun g Hg => H g (or_intror Hg))). cbn [bind]. unfold pp_out. cbn [children]. reflexivity.
+Qed.
+
+Theorem doc_ws_tokens ind iel mll psort esort rs : forallb (rchild_ok ind) rs = true ->
+  doc_ws fixed psort (Some (para_ws fixed ind iel mll esort None)) (Node ROOT rs) = Ok (d_out ind iel mll psort esort rs).
+Proof.
+  intros H. unfold doc_ws. cbn [children]. rewrite (dws_scan_tok ind rs [] [] H). cbn [bind app].
+  pose proof (d_groups_In ind rs []) as HIn. unfold d_out. destruct (d_groups rs []) as [gs tr]. cbn [fst snd] in *.
+  rewrite (dws_emit_tok ind iel mll esort _ true).
+  - cbn [bind]. rewrite (res_map_id (emit_current fixed)) by (intros x _; reflexivity). cbn [bind v_terminate fixed]. reflexivity.
+  - intros g Hg. apply (HIn g H). apply (sort_opt_In _ _ _ Hg).
+Qed.
